@@ -40,7 +40,8 @@ def predict(tm, op):
         for cp in cps:
             for l in tm.links_of(cp):
                 for p in tm.link_ends(l):
-                    if p != cp and tm.typ(p) == 'ServicePort' and tm.typ(cp) != 'ServicePort':
+                    # (a node interface's service-side port; and the far port of a peering when this side's port goes)
+                    if p != cp and tm.typ(p) == 'ServicePort':
                         gone.add(p)
         return gone
 
@@ -105,7 +106,7 @@ def predict(tm, op):
         ports = set()
         for cp in tm.ifaces_of_service(a):
             for p in tm.peers(cp):
-                if tm.cp_parent(p) == b:
+                if tm.cp_parent(p) == b and tm.typ(cp) == 'ServicePort' and tm.typ(p) == 'ServicePort':
                     ports |= {cp, p}
         if len(ports) != 2:
             return None      # peered twice / not peered: unspecified which pair goes
@@ -159,17 +160,23 @@ def applicable_ops(tm, g):
     allsvc = tm.ids('NetworkService')
     names = [tm.name(x) for x in allsvc]
     uniq = [x for x in allsvc if names.count(tm.name(x)) == 1]       # the harness addresses services by name
+    pairs = {}
     for s in uniq:
         for cp in tm.ifaces_of_service(s):
             for p in tm.peers(cp):
                 q = tm.cp_parent(p)
-                if q in uniq and q != s and (s, q) not in seen:
-                    seen.add((s, q))
-                    if tm.typ(cp) == 'ServicePort' and tm.typ(p) == 'ServicePort':
-                        ops.append({'op': 'unpeer', 'a': tm.name(s), 'b': tm.name(q), '_a_id': s, '_b_id': q, 'cached': True})
-                    else:
-                        # an interface of q connected to s is not a peering of the two services
-                        ops.append({'op': 'unpeer', 'a': tm.name(s), 'b': tm.name(q), '_a_id': s, '_b_id': q, 'cached': False, '_refusal': True})
+                if q in uniq and q != s:
+                    both = tm.typ(cp) == 'ServicePort' and tm.typ(p) == 'ServicePort'
+                    pairs[(s, q)] = pairs.get((s, q), False) or both
+    for (s, q), peered in sorted(pairs.items()):
+        if (q, s) in seen:
+            continue
+        seen.add((s, q))
+        if peered:
+            ops.append({'op': 'unpeer', 'a': tm.name(s), 'b': tm.name(q), '_a_id': s, '_b_id': q, 'cached': True})
+        else:
+            # an interface of q connected to s is not a peering of the two services
+            ops.append({'op': 'unpeer', 'a': tm.name(s), 'b': tm.name(q), '_a_id': s, '_b_id': q, 'cached': False, '_refusal': True})
     # two services that do NOT peer but sit close to each other in the model (own services of two components of one node, two
     # services of one node): un-peering them is refused and removes nothing
     for n in tm.ids('NetworkNode'):
@@ -398,7 +405,10 @@ def force_shapes(rng, topo, flavour, g):
         fsw, fsub = g.fresh('fsw'), g.fresh('sub')
         if do({'op': 'add_switch', 'name': fsw, 'node_id': None, 'site': 'RENC', 'nports': 2}):
             if do({'op': 'add_child_interface', 'iface': [fsw, 'p1'], 'name': fsub, 'node_id': None, 'kw': {'labels': {'vlan': '300'}}}):
-                do({'op': 'add_network_service', 'name': g.fresh('fs'), 'node_id': None, 'nstype': 'L2Bridge', 'interfaces': [[fsw, 'p1', fsub], [fsw, 'p2']]})
+                fbr = g.fresh('fs')
+                if do({'op': 'add_network_service', 'name': fbr, 'node_id': None, 'nstype': 'L2Bridge', 'interfaces': [[fsw, 'p1', fsub], [fsw, 'p2']]}):
+                    # ... and the bridge also peers with the switch's own service: a peering beside a connection of the same two services
+                    do({'op': 'peer', 'a': fbr, 'b': fsw + '-ns'})
         # a handle put aside, the service renamed through another handle, then peered 'with the renamed one' through the old
         # handle: a service offered to itself as peer (refused by a correct library, so the shape is then simply absent)
         sc, scn = g.fresh('fs'), g.fresh('rn')
